@@ -137,17 +137,17 @@ def gen_C07(rnd, n, tier):
              "F0": {"widths": {"default": 6}}}
     for i in range(max(20, n // 10)):
         text = " ".join("".join(rnd.choice("abcWi") for _ in range(rnd.randint(1, 6))) for _ in range(rnd.randint(3, 12)))
-        form = rnd.choice(["none", "font", "len", "font,len", "len,font", "named", "font+named", "len+named", "allnamed", "zero", "hexlen", "hexnamed", "octlen"])
+        form = rnd.choice(["none", "font", "len", "font,len", "len,font", "named", "font+named", "len+named", "allnamed", "zero", "hexlen", "hexnamed", "octlen", "f0", "f0"])
         params = {"none": "", "font": ', "F2"', "len": ", 55", "font,len": ', "F2", 33', "len,font": ', 33, "F2"',
                   "named": ", numLines=3", "font+named": ', "F2", cursorOverlapWidth=7, numLines=1', "len+named": ", 44, fontId=\"F2\"",
                   "allnamed": ', fontId="F0", maxLineLength=30, numLines=2, cursorOverlapWidth=4', "zero": ", 0, numLines=0",
-                  "hexlen": ', "F2", 0x21', "hexnamed": ', fontId="F2", maxLineLength=0x2C, numLines=0x1, cursorOverlapWidth=0x7', "octlen": ", 050"}[form]
+                  "f0": ', "F0", 30', "hexlen": ', "F2", 0x21', "hexnamed": ', fontId="F2", maxLineLength=0x2C, numLines=0x1, cursorOverlapWidth=0x7', "octlen": ", 050"}[form]
         src = 'text T {\n  format("%s"%s)\n}\n' % (text, params)
         cfg = Cfg(fontdefault="F1", fonts=fonts, maxlen=rnd.choice([0, 0, 60]), deffont=rnd.choice(["", "", "F2"]))
         want = None
         meta = {"params": form}
         # number literals are read like Go literals (0x.., leading 0 = octal): the resolved geometry
-        expect = {"hexlen": ("F2", 33, 3, 0), "hexnamed": ("F2", 44, 1, 7), "octlen": (None, 40, None, None)}.get(form)
+        expect = {"hexlen": ("F2", 33, 3, 0), "hexnamed": ("F2", 44, 1, 7), "octlen": (None, 40, None, None), "f0": ("F0", 30, 2, 0)}.get(form)      # F0 has no numLines: 2
         if expect is not None:
             fid = expect[0] or (cfg.deffont or "F1"); f = fonts[fid]
             meta["geom"] = (text, expect[1], expect[3] if expect[3] is not None else f.get("cursorOverlapWidth", 0),
@@ -243,6 +243,9 @@ def gen_C17(rnd, n, tier):
     cboth = base_cfg(); cboth.autovars = dict(cboth.autovars, both=("VAR_RESULT", 0))
     sboth = "script Gambler {\n  lock\n  if (both(VAR_TEMP_1) >= 50) {\n    x\n  }\n  release\n}\n"
     base.append((Case(compile_line(cboth, sboth), sboth, cboth, {}), 4))
+    srcln = "script Berries {\n  if (countberries(3) == 0) {\n    a\n  } else {\n    b\n  }\n  switch (countthings(1)) {\n    case 1: c\n  }\n}\n"
+    for lint in (False, True, False):
+        cl = base_cfg(lint=lint); base.append((Case(compile_line(cl, srcln), srcln, cl, {}), 3))
     srcenv = 'script S {\n  poryswitch(GAME) { RUBY: r _: o }\n  poryswitch(LANG) { DE { d } _ { e } }\n}\n'
     cenv = base_cfg(switches={"GAME": "RUBY"}); base.append((Case(compile_line(cenv, srcenv), srcenv, cenv, {}), 4))
     # two label clashes in different chunks of one script: always the same one is reported
@@ -521,12 +524,17 @@ def gen_C19(rnd, n, tier):
            ["const T = W * H\nconst U = A < B > C\nscript S { setvar(V, T, U) }", "const T = W *\n   H\nconst U = A <\n B >\n C\nscript S { setvar(V, T, U) }", "const T = W\n * H\nconst U = A\n  < B\n  > C\nscript S { setvar(V, T, U) }", "const T = W * // c\n H\r\nconst U = A < B\r\n > C\r\nscript S { setvar(V, T, U) }"],
            ["const N = 5\nconst M = N -\n 1\nscript S { if (var(A) == M) { x } }", "const N = 5 const M = N - 1 script S { if (var(A) == M) { x } }"],
            ["script S { msgbox(\"a \" \"b\") msgbox(\"x\"\n \"y\") }", "script S {\n msgbox(\"a \"   \"b\")\n msgbox(\"x\" \"y\") }"]]
+    LAYL = [["script S { poryswitch(G) { SAPPHIRE: a(\"s\") RUBY: b(\"r\") } }\nmovement M { walk_up poryswitch(G) { Z: zz A: aa } }",
+             "script S {\n poryswitch(G) {\n  SAPPHIRE: a(\"s\")\n  RUBY: b(\"r\")\n }\n}\nmovement M {\n walk_up\n poryswitch(G) {\n  Z: zz\n  A: aa\n }\n}"]]
+    for q, grp in enumerate(LAYL):
+        cfg = base_cfg(lint=True)
+        for k, sq in enumerate(grp): out.append(Case(compile_line(cfg, sq), sq, cfg, {"layout": k}, group=("layl", q)))
     for q, grp in enumerate(LAY):
         cfg = base_cfg(optimize=(q % 2 == 0))
         for k, sq in enumerate(grp): out.append(Case(compile_line(cfg, sq), sq, cfg, {"layout": k}, group=("lay", q)))
     for i in range(max(10, n // 10)):
-        tg = TopGen(rnd, tier); src0 = tg.gen(rnd.randint(1, 3))
-        cfg = base_cfg(optimize=rnd.random() < 0.5)
+        tg = TopGen(rnd, tier, porywrap=(i % 3 == 0)); src0 = tg.gen(rnd.randint(1, 3))
+        cfg = base_cfg(optimize=rnd.random() < 0.5, lint=(i % 4 == 1), switches={"V": "ZZ"})
         out.append(Case(compile_line(cfg, src0), src0, cfg, {"layout": 0}, group=("c", i)))
         for k in range(2):
             s = relayout(src0, rnd)
@@ -579,7 +587,7 @@ def gen_C20(rnd, n, tier):
     kinds = ["break_outside", "continue_outside", "continue_not_last", "dup_case", "two_defaults", "const_redef",
              "text_clash", "movement_clash", "label_clash", "label_text_clash", "continue_in_switch_only",
              "continue_after_loop_in_switch", "break_after_closed_loop", "continue_after_closed_loop",
-             "dup_case_const", "dup_case_const_rev", "dup_case_multi", "dup_case_many", "label_clash_forward", "continue_not_last_in_case", "label_clash_nested", "continue_after_inf_loop", "dup_case_nested_switch", "label_clash_probe"]
+             "dup_case_const", "dup_case_const_rev", "dup_case_multi", "dup_case_many", "label_clash_own", "label_clash_forward", "continue_not_last_in_case", "label_clash_nested", "continue_after_inf_loop", "dup_case_nested_switch", "label_clash_probe"]
     for i in range(n):
         kind = kinds[i % len(kinds)]
         pre = p_block(plain_body(rnd), 1)      # statements before, inside script S
@@ -598,7 +606,7 @@ def gen_C20(rnd, n, tier):
               "maptable": (["mapscripts M {", "  MAP_SCRIPT_ON_FRAME_TABLE [", "    VAR_T, 1 {"], ["    }", "  ]", "}"], "M_MAP_SCRIPT_ON_FRAME_TABLE_0")}[wrap]
         woff = len(WR[0]) - 1
         def assemble(lines_before_script, body_lines, after=()):
-            body_lines = [re.sub(r"\bS_", WR[2] + "_", l) for l in body_lines]
+            body_lines = [re.sub(r"\bS_", WR[2] + "_", l).replace("@OWN@", WR[2]) for l in body_lines]
             lines = list(lines_before_script) + WR[0] + body_lines + WR[1] + list(after)
             return "\n".join(lines) + "\n"
         bl = pre.rstrip("\n").split("\n") if pre.strip() else []
@@ -630,6 +638,11 @@ def gen_C20(rnd, n, tier):
             body = bl + ["  switch (var(V)) {", "    case %s: a" % c1, "    case 2:", "    case %s: b" % c2, "  }"]
             lines = ["const K_YES = 1"] + head + ["script S {"] + body + ["}"]
             src = "\n".join(lines) + "\n"; line = 1 + len(head) + 1 + len(bl) + 4
+        elif kind == "label_clash_own":
+            # a label spelled like the script's own (possibly generated) name: the entry label is a generated label too
+            mid = rnd.choice([["  if (flag(A)) {", "    a", "  }"], ["  a"], []])
+            body = ["  lock"] + mid + ["  @OWN@%s:" % rnd.choice(["", "", "(global)", "(local)"]), "  release"]; line = len(head) + 1 + 1 + len(mid) + 1
+            src = assemble(head, body)
         elif kind == "dup_case_many":
             # a long switch: the k-th of N distinct values is repeated at the end (every k, every position matters)
             N = rnd.choice([9, 10, 13, 17, 33]); k = rnd.choice([x for x in (1, 2, 7, 8, 9, 10, 15, 16, 17, 18, 31, 32, 33, N - 1, N) if 1 <= x <= N])     # around the usual small-array thresholds
